@@ -60,6 +60,13 @@ func c06att(name string, pk core.PubKey, slot uint64, comm, val uint64, head, sr
 			CommitteeLength: 8, CommitteesAtSlot: 8, ValidatorCommitteeIndex: 1},
 	}
 	content := d.Data.String()
+	if comm == 0 {
+		// a duty that really is in committee 0: its own keys ARE the committee-index-0 keys, held to the strict clauses
+		return c06item{name: name, pk: pk, data: d, provs: []c06prov{
+			{key: fmt.Sprintf("att/%d/0", slot), content: content},
+			{key: fmt.Sprintf("pk/%d/0/%d", slot, val), content: string(pk)},
+		}}
+	}
 	return c06item{name: name, pk: pk, data: d, provs: []c06prov{
 		{key: fmt.Sprintf("att/%d/%d", slot, comm), content: content},
 		{key: fmt.Sprintf("att/%d/0", slot), content: content, alias: true},
@@ -726,6 +733,19 @@ func c06scenarios() []*schedx.Scenario {
 	// the same first entry: the reader of that entry must be served by the successful store although it adds nothing new
 	add("att-failed-multi-then-successful-restore", 2, T(S("sY", attD, Y), RA("ra4", 10, 4)), T(S("sXZ", attD, X, Z), S("sZ", attD, Z)))
 	add("att-failed-multi-then-successful-restore-3t", 2, T(S("sY", attD, Y)), T(RA("ra4", 10, 4)), T(S("sXZ", attD, X, Z), S("sZ", attD, Z)))
+	// duties that really are in committee 0 (the boundary at which a duty's own key coincides with the committee-index-0 alias
+	// key that every other committee also writes): two validators of committee 0 with data differing only in the head clash
+	// like in any other committee; a committee-0 duty and a duty of another committee with another head coexist through the alias
+	X0 := c06att("X0", PA, 10, 0, 1, 0x11, 1)
+	X0b := c06att("X0'", PA, 10, 0, 1, 0x11, 1)
+	Y0 := c06att("Y0", PB, 10, 0, 2, 0x99, 1) // same committee 0, other validator, other head: clash
+	V0 := c06att("V0", PB, 10, 0, 2, 0x11, 1) // same committee 0, other validator, equal data
+	K0 := c06att("K0", PB, 10, 0, 1, 0x11, 1) // same (slot, 0, validator), other pubkey
+	add("att-comm0-conflicting-writers-reader", 1, T(S("sX0", attD, X0)), T(S("sY0", attD, Y0)), T(RA("ra0", 10, 0), RA("ra0b", 10, 0)), T(PK("pk1", 10, 0, 1), PK("pk2", 10, 0, 2)))
+	add("att-comm0-one-store-two-validators-clash", 2, T(RA("ra0", 10, 0)), T(S("sX0Y0", attD, X0, Y0)), T(PK("pk1", 10, 0, 1), PK("pk2", 10, 0, 2), RA("ra0b", 10, 0)))
+	add("att-comm0-equal-writers", 2, T(RA("ra0", 10, 0)), T(S("sX0V0", attD, X0, V0)), T(S("sX0b", attD, X0b)), T(PK("pk2", 10, 0, 2)))
+	add("att-comm0-pubkey-clash", 1, T(S("sX0", attD, X0)), T(S("sK0", attD, K0)), T(PK("pk1", 10, 0, 1)))
+	add("att-comm0-with-other-committee", 2, T(RA("ra0", 10, 0), RA("ra4", 10, 4)), T(S("sX0", attD, X0)), T(S("sZ", attD, Z)), T(S("sY0", attD, Y0)))
 	// proposals
 	add("pro-2readers-conflicting-writers", 1, T(RP("rp", 10)), T(RP("rp", 10)), T(S("sP", proD, P)), T(S("sQ", proD, Q)))
 	add("pro-equal-writers-cancel", 1, T(RP("rp", 10)), T(C("c", "T0")), T(S("sP", proD, P)), T(S("sP2", proD, P2), RP("rp", 10)))
